@@ -108,7 +108,7 @@ V19(m, o) == LET v == IF m.p.kind = "retry" THEN V19Retry(m, o)
                        ELSE IF m.p.kind = "timed" THEN V19Timed(m, o)
                        ELSE ""
              IN IF v = "" THEN ""
-                ELSE v \o "/" \o m.p.kind \o (IF m.raced THEN "/after-proceed-at-expiry" ELSE "")
+                ELSE v \o "/" \o m.p.kind \o (IF m.raced \/ o.ev = "tP" THEN "/after-proceed-at-expiry" ELSE "")
 
 (* budget bookkeeping after the observation *)
 Act(m, o) ==
